@@ -32,6 +32,12 @@ func genRoutingCase(t *rapid.T, adversarial bool) RoutingCase {
 		// the container had the other router installed first
 		c.Extra = map[string]int64{"router_swapped": 1}
 	}
+	if rapid.IntRange(0, 2).Draw(t, "traceoffnil") == 0 {
+		if c.Extra == nil {
+			c.Extra = map[string]int64{}
+		}
+		c.Extra["trace_off_nil"] = 1 // tracing is switched off with TraceLogger(nil)
+	}
 	if rapid.IntRange(0, 2).Draw(t, "viaserve") == 0 {
 		// through ServeHTTP: net/http's mux sits in front (pattern registration, path cleaning)
 		c.Via = harness.ViaServe
@@ -76,7 +82,7 @@ func checkC02(c RoutingCase) (vs []*Violation) {
 	nontrivial := false
 	labels := []string{"router_" + c.Router, "via_" + via}
 	for i, req := range c.Reqs {
-		harness.SetTrace(false)
+		harness.SetTraceOff(c.Extra["trace_off_nil"] == 1 && i > 0) // from the second request on tracing had been on before
 		o := harness.Do(ct, rec, req, via, strconv.Itoa(i))
 		harness.SetTrace(true)
 		ot := harness.Do(ct, rec, req, via, strconv.Itoa(i)+"t")
